@@ -35,9 +35,27 @@ from .values import (
 )
 
 EAttrS = z3.ArraySort(V, V, S.MapS)
+_in_x = z3.Function("in_deg_extra", S.RelS, V, S.Int)
+_out_x = z3.Function("out_deg_extra", S.RelS, V, S.Int)
 in_deg = z3.Function("in_deg", S.RelS, V, S.Int)
 out_deg = z3.Function("out_deg", S.RelS, V, S.Int)
 tot_deg = z3.Function("tot_deg", S.RelS, V, S.Int)
+
+
+def _abs(t):
+    return z3.If(t >= 0, t, -t)
+
+
+def deg_def(e, n):
+    """defining equations of the degree terms for this (edge relation, node): 0 iff no such edge, else positive"""
+    u = S.fresh("du", V)
+    return [
+        in_deg(e, n) == z3.If(z3.Exists([u], e[u, n]), 1 + _abs(_in_x(e, n)), z3.IntVal(0)),
+        out_deg(e, n) == z3.If(z3.Exists([u], e[n, u]), 1 + _abs(_out_x(e, n)), z3.IntVal(0)),
+        tot_deg(e, n) == in_deg(e, n) + out_deg(e, n),
+    ]
+
+
 relabel_pick = z3.Function("relabel_pick", S.SetS, V, V, S.Bool)
 simple_paths_len = z3.Function("simple_paths_len", S.RelS, V, V, S.Int)
 simple_paths_arr = z3.Function("simple_paths_arr", S.RelS, V, V, S.SeqS)
@@ -49,12 +67,7 @@ def empty_graph():
 
 
 def deg_facts(e):
-    n, u = S.fresh("dn", V), S.fresh("du", V)
-    return [
-        z3.ForAll([n], And(in_deg(e, n) >= 0, (in_deg(e, n) == 0) == Not(z3.Exists([u], e[u, n])))),
-        z3.ForAll([n], And(out_deg(e, n) >= 0, (out_deg(e, n) == 0) == Not(z3.Exists([u], e[n, u])))),
-        z3.ForAll([n], And(tot_deg(e, n) == in_deg(e, n) + out_deg(e, n))),
-    ]
+    return []
 
 
 def _attr_merge(engine, st, kwargs):
@@ -142,6 +155,32 @@ def m_remove_edge(engine, st, recv, args, kwargs, recv_node):
             yield from _mut(engine, st1, recv, recv_node, sv_graph(nodes, na, z3.Store(e, u, v, z3.BoolVal(False)), ea))
         else:
             yield st1, Raised("NetworkXError", where="remove_edge: not in graph")
+
+
+def m_remove_edges_from(engine, st, recv, args, kwargs, recv_node):
+    from .builtins_model import to_set
+
+    for st1, sset in to_set(engine, st, args[0]):
+        if isinstance(sset, Raised):
+            yield st1, sset
+            continue
+        nodes, na, e, ea = recv.t
+        a, b = S.fresh("a", V), S.fresh("b", V)
+        new = sv_graph(nodes, na, z3.Lambda([a, b], And(e[a, b], Not(sset.t[V.pair(a, b)]))), ea)
+        yield from _mut(engine, st1, recv, recv_node, new)
+
+
+def m_remove_nodes_from(engine, st, recv, args, kwargs, recv_node):
+    from .builtins_model import to_set
+
+    for st1, sset in to_set(engine, st, args[0]):
+        if isinstance(sset, Raised):
+            yield st1, sset
+            continue
+        nodes, na, e, ea = recv.t
+        a, b = S.fresh("a", V), S.fresh("b", V)
+        new = sv_graph(z3.Lambda([a], And(nodes[a], Not(sset.t[a]))), na, z3.Lambda([a, b], And(e[a, b], Not(sset.t[a]), Not(sset.t[b]))), ea)
+        yield from _mut(engine, st1, recv, recv_node, new)
 
 
 def m_has_node(engine, st, recv, args, kwargs, recv_node):
@@ -300,12 +339,11 @@ def degree_view(g, which):
 
     def plan(engine, st):
         x = S.fresh("nd", V)
-        st = st.with_facts(deg_facts(e))
-        yield st, Plan("setlike", vars=[x], mem=g.t[0][x], decode=lambda s: (s, sv_tuple([sv_v(x, TAny), sv_int(fn(e, x))])), key=x)
+        yield st, Plan("setlike", vars=[x], mem=g.t[0][x], decode=lambda s: (s.with_facts(deg_def(e, x)), sv_tuple([sv_v(x, TAny), sv_int(fn(e, x))])), key=x)
 
     def getitem(engine, st, k):
         st, n = engine.boxed(st, k)
-        st = st.with_facts(deg_facts(e))
+        st = st.with_facts(deg_def(e, n))
         for st1, has in engine.fork(st, g.t[0][n]):
             if has:
                 yield st1, sv_int(fn(e, n))
@@ -496,6 +534,8 @@ def install(engine):
     mm[("graph", "remove_node")] = m_remove_node
     mm[("graph", "remove_edge")] = m_remove_edge
     mm[("graph", "has_node")] = m_has_node
+    mm[("graph", "remove_edges_from")] = m_remove_edges_from
+    mm[("graph", "remove_nodes_from")] = m_remove_nodes_from
     mm[("graph", "has_edge")] = m_has_edge
     mm[("graph", "subgraph")] = m_subgraph
     mm[("graph", "out_edges")] = m_out_edges
